@@ -26,7 +26,7 @@ OPS = ['set', 'set', 'set', 'replace', 'bad', 'bad', 'del', 'rename_axis', 'rena
 
 
 def shards(tier, seed, scale=1.0):
-    out = [{"name": "reject-enum", "kind": "enum", "block": "reject", "exhaustive": True, "seed": seed}]
+    out = [{"name": "reject-enum", "kind": "enum", "block": "reject", "exhaustive": True, "seed": seed, "tier": tier}]
     out += common.rand_shards(ID, tier, seed, scale, 1600, 50000)
     return out
 
@@ -263,7 +263,7 @@ def cases(desc):
         for nb in range(0, 3):
             for na in range(0, 3):
                 for mode in ('perturb', 'permute', 'truncate'):
-                    for rep in range(6):
+                    for rep in range(6 if desc.get("tier") != "thorough" else 60):
                         h = gen_history(rng, rng.randint(2, 6), forced_bad=(nb, na, mode))
                         h["block"] = "reject"
                         yield h
